@@ -149,7 +149,7 @@ Fixpoint drop_comments (ls : list (list Z)) : list (list Z) :=
    sequence line is outside the reader's domain (None). *)
 (* SWITCH: false = the reader as it is (IndexError on a record without sequence lines); true = repaired
    MultiLineFastaBuffer.get_data (notes/C03.fix-3.diff) *)
-Definition reader_reads_empty_fasta_record := false.
+Definition reader_reads_empty_fasta_record := true.
 Definition close_rec (cur : option (list Z * list Z * bool)) : option (list row) :=
   match cur with
   | None => Some []
@@ -379,12 +379,12 @@ Definition fasta_from_data_fixed (w : Z) (es : list (list Z * list Z)) : option 
   let is_hdr := map (fun i => existsb (Z.eqb i) hdr_idx) (arange total) in
   fasta_fill ll2 is_hdr (map fst es) (concat (map snd es)).
 (* SWITCH: the code as it is in /repo *)
-Definition fasta_from_data := fasta_from_data_pinned.
+Definition fasta_from_data := fasta_from_data_fixed.
 
 (* dump_csv.get_column has no entry for the type Union[BNPDataClass, str]: KeyError (code 2).
    SWITCH: false = the code as it is; true = repaired get_column (notes/C03.fix-4.diff) that writes a text
    INFO column. *)
-Definition union_info_writable := false.
+Definition union_info_writable := true.
 (* ---- one from_data call of the buffer type; (error code, bytes): 0 ok, 1 AssertionError, 2 KeyError ---- *)
 Definition from_data (f : fmt) (rows : list row) : Z * list Z :=
   match f with
@@ -443,4 +443,4 @@ Definition run_hist_pinned := run_hist_with mode_is_ab_pinned true.
 Definition run_hist_fixed := run_hist_with mode_is_ab_fixed false.
 (* SWITCH: the code as it is in /repo (fix-1 only: run_hist_with mode_is_ab_fixed true;
    fix-2 only: run_hist_with mode_is_ab_pinned false) *)
-Definition run_hist := run_hist_pinned.
+Definition run_hist := run_hist_fixed.
